@@ -73,12 +73,12 @@ def table_violations(ctx, t) -> int:
                       f"probe: {p.desc if p else '?'}", p.replay() if p else {"row": [k, f]})
         n += 1
     for p in t.probes:
-        if isinstance(p.key_eq, str):
+        if isinstance(p.key_eq, str) and not p.invalid:
             ctx.violation(f"key-raises:{p.kind}.{p.row}", f"the key builder raised ({p.key_eq}); {p.desc}", p.replay())
             n += 1
     # compound probes (two fields at once) must change the key as well
     for p in t.probes:
-        if p.compound and p.key_eq is True:
+        if p.compound and p.key_eq is True and not all(eqtable._is_traceback(r) for r in p.row.split("+")):
             ctx.violation(f"key-ignores:{p.kind}.{p.row}", f"same key although {p.row} differ; {p.desc}", p.replay())
             n += 1
     return n
